@@ -53,6 +53,11 @@ Definition rcase (local : nh_info) (vers : list (N * N)) (flag : bool) (obs : op
 Definition scase (nhi : nh_info) (vers : list (N * N)) (flag : bool) (obs : option report) : bool :=
   opt_eqb report_eqb (send_report nhi vers flag) obs.
 
+(* one reporting round: [servers] in the order the agent contacted them (then the ones it did not contact), [obs]: what the
+   contacted servers received, in that order *)
+Definition fcase (local : nh_info) (flag : bool) (servers : list (list (N * N) * srv_mode)) (obs : list (option report)) : bool :=
+  list_eqb (opt_eqb report_eqb) (report_round local flag servers) obs.
+
 (** * reference NodeHost (one host) *)
 
 Record replica_st := mkRp {
